@@ -148,3 +148,20 @@ package ir
 //@   ensures [afloat] is(v, LiteralAbstractFloat) ==> same(result, float64(v.(LiteralAbstractFloat)))
 //@   pure
 //@   nopanic
+//
+// Evaluation of an override's default initialiser: a reference to another
+// override denotes that override's *resolved* value (the supplied pipeline
+// constant if there is one), a literal denotes itself, a binary/unary node the
+// operator applied to the operand values.
+//
+//@ func evaluateGlobalExprAsFloat
+//@   mode bv
+//@   tags C14
+//@   requires [module] module != nil
+//@   ensures [out-of-range] int(handle) >= len(module.GlobalExpressions) ==> result1 != nil
+//@   ensures [override-ref] int(handle) < len(module.GlobalExpressions) && is(module.GlobalExpressions[int(handle)].Kind, ExprOverride) && int(module.GlobalExpressions[int(handle)].Kind.(ExprOverride).Override) < len(resolved) ==> result1 == nil && same(result0, resolved[int(module.GlobalExpressions[int(handle)].Kind.(ExprOverride).Override)])
+//@   ensures [override-unresolved] int(handle) < len(module.GlobalExpressions) && is(module.GlobalExpressions[int(handle)].Kind, ExprOverride) && int(module.GlobalExpressions[int(handle)].Kind.(ExprOverride).Override) >= len(resolved) ==> result1 != nil
+//@   ensures [literal-f32] int(handle) < len(module.GlobalExpressions) && is(module.GlobalExpressions[int(handle)].Kind, Literal) && is(module.GlobalExpressions[int(handle)].Kind.(Literal).Value, LiteralF32) ==> result1 == nil && same(result0, float64(float32(module.GlobalExpressions[int(handle)].Kind.(Literal).Value.(LiteralF32))))
+//@   ensures [literal-i32] int(handle) < len(module.GlobalExpressions) && is(module.GlobalExpressions[int(handle)].Kind, Literal) && is(module.GlobalExpressions[int(handle)].Kind.(Literal).Value, LiteralI32) ==> result1 == nil && same(result0, float64(int32(module.GlobalExpressions[int(handle)].Kind.(Literal).Value.(LiteralI32))))
+//@   pure
+//@   nopanic
